@@ -177,14 +177,16 @@ def overdue_siblings(ctx: Ctx, rule: str) -> None:
     for q in OVERDUE:
         f = ctx.func(q)
         n += 1
-        g = ctx.cfg(f)
+        # a shared module-level helper (`_ttl_expired(self.timestamp, self.ttl)`) is read in the caller's terms
+        g = ctx.icfg(f, substitute=True)
+        inlined_calls = {id(c.ast) for c in g.nodes if c.kind == "call" and c.meta.get("inlined")}
         tests = [t for t in g.nodes if t.kind == "test"]
         ok = len(tests) == 1 and isinstance(tests[0].ast, ast.Compare) and isinstance(tests[0].ast.ops[0], (ast.Is, ast.IsNot)) \
             and dotted(tests[0].ast.left) == "self.ttl" and C.is_const(tests[0].ast.comparators[0], None)
         ctx.check(ok, rule, f, f"{f.short()}: 'no ttl' decided by `self.ttl is None`", "identity test (a zero ttl is a ttl)",
                   f"{f.short()} decides 'no time-to-live' with {[t.label for t in tests]} instead of `self.ttl is None`: e.g. a zero timedelta is falsy and would never expire",
                   instance=f"{f.short()}: ttl None test")
-        rets = [r for r in g.nodes if r.kind == "return"]
+        rets = [r for r in g.nodes if r.kind == "return" and not (isinstance(r.ast.value, ast.Call) and id(r.ast.value) in inlined_calls)]
 
         def env(none):
             def fn(text, node):
